@@ -469,7 +469,7 @@ TIE_FILES = {   # tie file -> functions of pyerrors/obs.py it needs regenerated
     "Tie_drho.v": ["compute_drho_radicand"],
     "Tie_covdot.v": ["_reduce_deltas", "covariance_calc_gamma"],      # imports Tie_reduce: list that file first
     "Tie_sortvec.v": ["sort_vectors_branch"],
-    "Tie_init.v": ["obs_init_idl_from_list"],
+    "Tie_init.v": ["obs_init_idl_from_list", "obs_init_validation"],
     "Tie_sortcorr.v": ["sort_corr_mapping"],
     "Tie_window.v": ["gamma_method_window_search", "gamma_method_tauexp_search", "gamma_method_window_tauint", "gamma_method_window_dvalue_sq"],
     "Tie_tauint.v": ["gamma_method_normalise", "gamma_method_rho", "gamma_method_n_tauint"],
